@@ -18,7 +18,7 @@ Ext(nm, dest) == EncGearStd(Row(Gear209, nm), dest, 0)
 Std(nm, dest) == EncGearStd(Row(Gear102, nm), dest, 0)
 
 U0 == [tempTc |-> 65535, tc |-> 300, activated |-> FALSE, limits |-> <<1, 2, 3, 4>>, report |-> v, sel |-> 2,
-       dtr0 |-> 170, dtr1 |-> 85, dtr2 |-> 9, level |-> 200, fault |-> [at |-> 0, kind |-> "none"], nans |-> 0]
+       dtr0 |-> 170, dtr1 |-> 85, dtr2 |-> 9, level |-> 200, fault |-> [at |-> 0, kind |-> "none"], nans |-> 0, pend |-> -1]
 
 RECURSIVE Run(_, _)
 Run(u, fs) == IF fs = <<>> THEN u ELSE Run(Step(u, fs[1][1], fs[1][2]).u, Tail(fs))
@@ -31,8 +31,15 @@ SetLaw == LET u == Run(U0, << <<Sp("DTR0", v % 256), 0>>, <<Sp("DTR1", v \div 25
 
 LimitLaw == \A s \in 0..3 :
     LET u == Run(U0, << <<Sp("DTR0", v % 256), 0>>, <<Sp("DTR1", v \div 256), 0>>, <<Sp("DTR2", s), 0>>,
-                        <<Ext("StoreColourTemperatureTcLimit", Dest), 8>> >>)
+                        <<Ext("StoreColourTemperatureTcLimit", Dest), 8>>, <<Ext("StoreColourTemperatureTcLimit", Dest), 8>> >>)
     IN u.limits = [U0.limits EXCEPT ![s + 1] = v] /\ u.tc = U0.tc
+
+\* sent once, or with another frame in between, the configuration command changes nothing
+OnceIsNothing == \A s \in 0..3 :
+    LET pre == << <<Sp("DTR0", v % 256), 0>>, <<Sp("DTR1", v \div 256), 0>>, <<Sp("DTR2", s), 0>> >>
+        st == <<Ext("StoreColourTemperatureTcLimit", Dest), 8>>
+    IN /\ Run(U0, pre \o <<st>>).limits = U0.limits
+       /\ Run(U0, pre \o <<st, <<Std("QueryActualLevel", <<"gshort", 5>>), 0>>, st>>).limits = U0.limits
 
 QueryLaw ==
     LET a == Step(U0, Std("QueryActualLevel", <<"gshort", 5>>), 0)
